@@ -5,9 +5,18 @@ package main
 
 import (
 	"bytes"
+	"compress/bzip2"
+	"encoding/base64"
 	"fmt"
+	"io"
+	"os"
+	"path/filepath"
 	"regexp"
+	"sync"
+	"testing/iotest"
 	"time"
+
+	"github.com/ulikunitz/xz"
 
 	"github.com/opencontainers/go-digest"
 
@@ -22,6 +31,104 @@ type optSpec struct {
 	A string `json:"a,omitempty"`
 	V string `json:"v,omitempty"`
 	I int    `json:"i,omitempty"`
+	F string `json:"f,omitempty"` // form of the stream handed to the option (WithLayerAddTar): see addInput
+}
+
+// Forms of the stream handed to WithLayerAddTar (the documented input is a tar stream):
+//
+//	""          the plain tar of addTar()
+//	gzip, zstd, xz, bzip2  that tar already compressed (every format archive.Decompress recognises)
+//	gzipalt     gzip best speed with a header name (the gzip other tools write)
+//	empty       a tar without entries (two zero blocks)
+//	notrailer   the tar without its end-of-archive blocks
+//
+// and how the reader delivers it (scenario field rdr): "" a bytes.Reader, "plain" a bare io.Reader that
+// returns one byte per call, "file" an *os.File as regctl --layer-add tar=... passes, "pipe" the read end of an
+// io.Pipe fed in small chunks as regctl --layer-add dir=... passes.
+const addTarBz2 = "QlpoOTFBWSZTWRnQy4IAAJb/kMuAAEBAAf+AAgEFhG8vnkAEAAQYMAC5sGUgAAAAANDIRqjanqAABoAAAEUojEyA9Q0aGgAB4XvXZnih/O2GmoEZS1Us5imGxrctOGdqQIVhC/jDIwImtgELt2+ptYQsgaLggZm26cIizBGG6CaKKVEQOBUb5GYQKu8ZK9gi9+MrRzEu47gIShxO/eqWX/fGwWAWYQNDaVFsFallClme8kfi7kinChIDOhlwQA=="
+
+var (
+	addInputOnce sync.Once
+	addInputs    map[string][]byte
+)
+
+func addInput(form string) ([]byte, error) {
+	addInputOnce.Do(func() {
+		t := addTar()
+		m := map[string][]byte{"": t, "gzip": compress("gzip", t, ""), "gzipalt": compress("gzip", t, "alt"), "zstd": compress("zstd", t, ""),
+			"empty": make([]byte, 1024), "notrailer": t[:len(t)-1024]}
+		var buf bytes.Buffer
+		if xw, err := xz.NewWriter(&buf); err == nil {
+			_, _ = xw.Write(t)
+			if xw.Close() == nil {
+				m["xz"] = append([]byte{}, buf.Bytes()...)
+			}
+		}
+		if bz, err := base64.StdEncoding.DecodeString(addTarBz2); err == nil {
+			// (the standard library has no bzip2 writer: the stream was made with python's bz2 from addTar() and is
+			// checked here against it)
+			if back, err := io.ReadAll(bzip2.NewReader(bytes.NewReader(bz))); err == nil && bytes.Equal(back, t) {
+				m["bzip2"] = bz
+			}
+		}
+		addInputs = m
+	})
+	b, ok := addInputs[form]
+	if !ok {
+		return nil, fmt.Errorf("input form %q of the added layer is not available", form)
+	}
+	return b, nil
+}
+
+// knownInput: the streams this driver hands in, by sha256, so that the audit can name the added layer also when
+// what is under its compression is not a tar with a marker file.
+func knownInput(uc []byte) bool {
+	_, _ = addInput("")
+	h := shaHex(uc)
+	for _, b := range addInputs {
+		if shaHex(b) == h {
+			return true
+		}
+	}
+	return false
+}
+
+func addReader(form, kind, scratch string, n int, cleanup *[]func()) (io.Reader, error) {
+	b, err := addInput(form)
+	if err != nil {
+		return nil, err
+	}
+	switch kind {
+	case "":
+		return bytes.NewReader(b), nil
+	case "plain":
+		return iotest.OneByteReader(bytes.NewReader(b)), nil
+	case "file":
+		fn := filepath.Join(scratch, fmt.Sprintf("layer-add-%d.tar", n))
+		if err := os.WriteFile(fn, b, 0o600); err != nil {
+			return nil, err
+		}
+		fh, err := os.Open(fn)
+		if err != nil {
+			return nil, err
+		}
+		*cleanup = append(*cleanup, func() { _ = fh.Close() })
+		return fh, nil
+	case "pipe":
+		pr, pw := io.Pipe()
+		go func() {
+			for at := 0; at < len(b); at += 97 {
+				end := min(at+97, len(b))
+				if _, err := pw.Write(b[at:end]); err != nil {
+					return
+				}
+			}
+			_ = pw.Close()
+		}()
+		*cleanup = append(*cleanup, func() { _ = pr.Close() })
+		return pr, nil
+	}
+	return nil, fmt.Errorf("unknown reader kind %q", kind)
 }
 
 var (
@@ -60,9 +167,9 @@ func optTime(a string, w *world) (mod.OptTime, error) {
 	return mod.OptTime{}, fmt.Errorf("unknown time variant %q", a)
 }
 
-func buildOpts(prog []optSpec, w *world) ([]mod.Opts, error) {
+func buildOpts(prog []optSpec, w *world, rdrKind, scratch string, cleanup *[]func()) ([]mod.Opts, error) {
 	out := []mod.Opts{}
-	for _, o := range prog {
+	for n, o := range prog {
 		switch o.K {
 		case "AddLayer":
 			ps := []platform.Platform{}
@@ -73,7 +180,11 @@ func buildOpts(prog []optSpec, w *world) ([]mod.Opts, error) {
 				}
 				ps = append(ps, p)
 			}
-			out = append(out, mod.WithLayerAddTar(bytes.NewReader(addTar()), o.V, ps))
+			rdr, err := addReader(o.F, rdrKind, scratch, n, cleanup)
+			if err != nil {
+				return nil, err
+			}
+			out = append(out, mod.WithLayerAddTar(rdr, o.V, ps))
 		case "RmIndex":
 			out = append(out, mod.WithLayerRmIndex(o.I))
 		case "RmCreatedBy":
